@@ -347,6 +347,14 @@ type ExecOpts struct {
 	// has more than a supermajority of famous witnesses, another witness still
 	// undecided, and an undetermined event seen by all the former but not the latter
 	ProbeStraggler bool
+	// RemoveCreator >= 0: when block RemoveAfterBlock is committed, the
+	// validator set without that creator is recorded for round-received + 6,
+	// the way a node does when a leave request is accepted in that block. The
+	// creator's later events stay in the DAG (a former validator that keeps
+	// gossiping).
+	RemoveCreator    int
+	RemoveAfterBlock int
+	Removal          bool
 }
 
 type EvVals struct {
@@ -373,6 +381,8 @@ type DagExec struct {
 	Store            hg.Store
 	Inserted         int
 	RawBlocks        []*hg.Block
+	// RemovalRound: round from which the scripted removal is effective (0: none)
+	RemovalRound int
 }
 
 func (x *DagExec) close() {
@@ -419,6 +429,18 @@ func execDag(d *Dag, order []*DagEvent, o ExecOpts) *DagExec {
 		x.BlockRR = append(x.BlockRR, b.RoundReceived())
 		cp := *b
 		x.RawBlocks = append(x.RawBlocks, &cp)
+		if o.Removal && b.Index() == o.RemoveAfterBlock && x.RemovalRound == 0 {
+			var rest []*peers.Peer
+			for i, p := range d.Peers {
+				if i != o.RemoveCreator {
+					rest = append(rest, p)
+				}
+			}
+			x.RemovalRound = b.RoundReceived() + 6
+			if err := store.SetPeerSet(x.RemovalRound, peers.NewPeerSet(clonePeers(rest))); err != nil {
+				return err
+			}
+		}
 		return nil
 	}
 	h := hg.NewHashgraph(store, cb, quietLogger())
